@@ -37,7 +37,13 @@ def _ptr_fact(tr, i):
     ce = cond_event(tr, i)
     if ce is not None and ce.k == 'call' and ce.get('recv') == PTR and norm(ce.get('callee')) in ('std::__shared_ptr::operator bool', 'std::shared_ptr::operator bool'):
         return bool(it.val)
-    n = nullness(it)
+    if ce is not None and ce.k == 'call' and re.search(r'std::operator(==|!=)$', norm(ce.get('callee') or '')):
+        # shared_ptr compared with nullptr: operator==(const shared_ptr&, nullptr_t) is a function call
+        ps = [a.get('path') or '' for a in ce.get('args', [])]
+        if len(ps) == 2 and PTR in ps and (set(ps) - {PTR}) <= set(NULLS):
+            eq = norm(ce['callee']).endswith('==')
+            return (not it.val) if eq else bool(it.val)
+    n = null_test(tr, i)
     if n and n[0] == PTR:
         return n[1]
     return None
